@@ -23,7 +23,8 @@ N    == Len(Obs)
 
 Fn(pairs) == [f \in {pairs[k][1] : k \in 1..Len(pairs)} |-> pairs[CHOOSE k \in 1..Len(pairs) : pairs[k][1] = f][2]]
 ToSc(j) == [multifile |-> j.multifile, overwrite |-> j.overwrite, subs |-> j.subs, invalid |-> j.invalid, unser |-> j.unser,
-            fault |-> [kind |-> j.fault[1], n |-> j.fault[2]], pre |-> Fn(j.pre), inplace |-> j.inplace]
+            fault |-> [kind |-> j.fault[1], n |-> j.fault[2]], pre |-> Fn(j.pre), inplace |-> j.inplace,
+            skipval |-> j.skipval, edited |-> j.edited, scheme |-> j.scheme]
 
 VARIABLE i
 Init == i \in 1..N
@@ -31,7 +32,7 @@ Next == UNCHANGED i
 
 Say(idx, clause) == PrintT(<<"R", "obs", idx, clause>>)
 
-KnownAtomicityDevs == {"single-open-before-dump", "multi-written-before-main-dump", "multi-written-before-sub-dump"}
+KnownAtomicityDevs == {"single-open-before-dump", "multi-written-before-main-dump", "multi-written-before-sub-dump", "fsspec-open-before-dump"}
 
 Check(k) ==
   LET o    == Obs[k]
@@ -44,22 +45,28 @@ Check(k) ==
       seen == [j \in 1..Len(o.events) |-> <<o.events[j][1], o.events[j][2], Fn(o.events[j][3])>>]
   IN /\ (Fn(o.pre0) = sc.pre /\ \A s \in snaps : DOMAIN s = DOMAIN sc.pre) \/ Say(k, "malformed")
      \* ---- Ref: the three clauses of C18, on every snapshot / on the final directory
-     /\ (\A s \in snaps : NoSilentOverwrite(sc, s)) \/ Say(k, "ref-nso")
+     \* (round 4) qualified "-as:fsspec-no-overwrite-check:<replaced|emptied>" when the target is an fsspec one, the real code
+     \* ended where the Alg layer ends and every snapshot differs from the directory before the call in the main file only
+     /\ (\A s \in snaps : NoSilentOverwrite(sc, s))
+          \/ Say(k, IF same /\ \A s \in snaps : (NoSilentOverwrite(sc, s) \/ DevFsspecNoOverwriteCheck(sc, s))
+                    THEN "ref-nso-as:fsspec-no-overwrite-check:" \o (IF fin["main"] = "main" THEN "replaced" ELSE "emptied") ELSE "ref-nso")
      /\ (\A j \in 1..Len(o.extra) : o.extra[j][2] = "absent") \/ Say(k, "ref-frame")            \* a file nobody mentioned was changed
      /\ (AllOrNothing(sc, o.out, o.fired, fin) /\ ((o.out = "raise" /\ MustBeAtomic(sc, o.fired)) => o.extra = << >>))
           \/ Say(k, IF same /\ dev \in KnownAtomicityDevs /\ o.extra = << >> THEN "ref-aon-as:" \o dev \o ":" \o r.cause ELSE "ref-aon-other")
-     /\ (o.out = "ok" => o.reparses)
-          \/ Say(k, IF same /\ dev \in {"multi-name-collision", "inplace-content-emptied"} THEN "ref-reparse-as:" \o dev ELSE "ref-reparse-other")
+     \* (round 4: not demanded of a configuration that is invalid and was saved with skip_validation=True)
+     /\ ((o.out = "ok" /\ ~(Invalid(sc) /\ sc.skipval)) => o.reparses)
+          \/ Say(k, IF same /\ dev \in {"multi-name-collision", "inplace-content-emptied", "multi-orig-text-stale"} THEN "ref-reparse-as:" \o dev ELSE "ref-reparse-other")
      \* the model's own reading of "reparses" (file contents identified by the harness) agrees with the real re-parse
      \* the saved documents refer to every component's file by the bare name it was written under (read from the saved
      \* files by the harness; independent of where the component was originally loaded from)
-     /\ ((o.out = "ok" /\ sc.multifile /\ ~Collision(sc)) => \A x \in Range(sc.subs) : RefersTo(o.refs, SubKey(x)) = {SubName(x)})
+     /\ ((o.out = "ok" /\ sc.multifile /\ ~Remote(sc) /\ ~Collision(sc)) => \A x \in Range(sc.subs) : RefersTo(o.refs, SubKey(x)) = {SubName(x)})
           \/ Say(k, "ref-reparse-refs")
-     /\ (o.out = "ok" => (Reparses(sc, fin, o.refs) <=> o.reparses)) \/ Say(k, "alg-reparse-model")
+     /\ ((o.out = "ok" /\ ~(Invalid(sc) /\ sc.skipval)) => (Reparses(sc, fin, o.refs) <=> o.reparses)) \/ Say(k, "alg-reparse-model")
      /\ ((o.out = "ok" /\ ~Collision(sc)) => o.refs = r.refs) \/ Say(k, "alg-refs")
      \* ---- Alg: same outcome, same final directory, same order of effects
      /\ same \/ Say(k, "alg-final")
-     /\ (seen = r.hist /\ o.fired = r.fired) \/ Say(k, "alg-events")
+     \* (an in-memory fsspec target is not opened through builtins.open: its effects are seen in the final state only)
+     /\ ((sc.scheme = "memory" \/ seen = r.hist) /\ o.fired = r.fired) \/ Say(k, "alg-events")
 
 Inv == Check(i) \/ TRUE
 =============================================================================
